@@ -153,6 +153,7 @@ class Verdict:
         self.violations = {}  # mechanism key -> witness (first)
         self.viol_count = Counter()
         self.inconclusive_why = Counter()
+        self.inconclusive_examples = []
         self.extra = {}
         self.infra = {}
 
@@ -162,6 +163,9 @@ class Verdict:
         self.status[st] += 1
         if st == "inconclusive":
             self.inconclusive_why[str(result.get("why", "?"))[:120]] += 1
+            why = str(result.get("why"))
+            if sum(1 for x in self.inconclusive_examples if x["why"][:20] == why[:20]) < 2:
+                self.inconclusive_examples.append({"why": str(result.get("why"))[:300], "case": case})
         if result.get("nontrivial"):
             self.nontrivial.add(result.get("digest") or digest(case))
         for k, v in (result.get("counters") or {}).items():
@@ -221,6 +225,7 @@ class Verdict:
             "known_findings_observed": known_hits,
             "unlisted_violation_classes": unlisted,
             "inconclusive_reasons": dict(self.inconclusive_why.most_common(10)),
+            "inconclusive_examples": self.inconclusive_examples,
             "infra": self.infra,
             "repo": state,
             "exhaustive": bool(exhaustive),
